@@ -228,7 +228,10 @@ def program(rng, **kw):
         ms = [(names[k], rng.choice(IO_TYPES)[1]) for k in range(n)]
         s = Ty("struct", name="VIn%d" % i, members=ms, has_rts=False)
         vin.append(s)
-        io_lines.append(g.render_struct(s, locations=[k + 4 * i for k in range(n)]))
+        locs = [k + 4 * i for k in range(n)]
+        if rng.random() < 0.5:
+            rng.shuffle(locs)          # declaration order unrelated to location order
+        io_lines.append(g.render_struct(s, locations=locs))
     if nentry and rng.random() < 0.6:
         ms = [("clip", Ty("vec", n=4, s="f32")), ("uv", Ty("vec", n=2, s="f32"))]
         inter = Ty("struct", name="Inter", members=ms, has_rts=False)
